@@ -34,16 +34,20 @@ def main():
         if not os.path.exists(os.path.join(wt, "ecs", "verif_hooks.go")):
             shutil.copy("/repo/ecs/verif_hooks.go", os.path.join(wt, "ecs", "verif_hooks.go"))
         res["checks"] = {}
+        seeds = os.environ.get("SEEDS", os.environ.get("VERIF_SEED", "1")).split()
         for c in checks:
             t0 = time.time()
-            r = sh("cd /verif && VERIF_ARK_DIR=%s ./check %s %s" % (wt, c, os.environ.get("TIER", "quick")))
-            line = ""
-            lines = r.stdout.splitlines()
-            for i, l in enumerate(lines):
-                if l.startswith("VIOLATION"):
-                    line = (lines[i + 1].strip() if i + 1 < len(lines) else "")[:220]
-                    break
-            res["checks"][c] = {"rc": r.returncode, "s": round(time.time() - t0), "first": line}
+            rcs, line = [], ""
+            for sd in seeds:
+                r = sh("cd /verif && VERIF_SEED=%s VERIF_ARK_DIR=%s ./check %s %s" % (sd, wt, c, os.environ.get("TIER", "quick")))
+                rcs.append(r.returncode)
+                lines = r.stdout.splitlines()
+                for i, l in enumerate(lines):
+                    if l.startswith("VIOLATION") and not line:
+                        line = (lines[i + 1].strip() if i + 1 < len(lines) else "")[:220]
+                        break
+            res["checks"][c] = {"rc": max(rcs) if 1 in rcs else rcs[0], "caught": rcs.count(1), "runs": len(rcs), "seeds": seeds,
+                                "s": round(time.time() - t0), "first": line}
     finally:
         sh("git -C /repo worktree remove --force %s" % wt)
     print(json.dumps(res, indent=1))
